@@ -3870,3 +3870,37 @@ package otto
 //@   abstract_callee (*object).call
 //@   requires wfCall(call) && argsOK(call.ArgumentList) && call.runtime != nil
 //@   stable call.ArgumentList
+
+// Instance construction (15.9.3, 15.3.4.5, 15.11.2): [[Prototype]] links and the attributes
+// of the prototype / constructor back-links of function objects created by the runtime.
+//@ func (*runtime).newDate
+//@   props C12 C14
+//@   nosafety
+//@   calls (*runtime).newDateObject(_, _) as o
+//@   at_call (*runtime).newDateObject : arg0 == rt && sameFloat(arg1, epoch)
+//@   ensures called(o) && result == o && result.prototype == rt.global.DatePrototype
+//@ func (*runtime).newNativeFunction
+//@   props C14 C07
+//@   nosafety
+//@   at_call (*runtime).newNativeFunctionObject : arg0 == rt && arg1 == name && arg2 == file && arg3 == line && arg5 == 0
+//@   at_call (*object).defineProperty : arg1 == "prototype" ==> arg3 == 0o100 && !arg4
+//@   at_call (*object).defineProperty : arg1 == "constructor" ==> arg3 == 0o100 && !arg4
+//@   at_call (*object).defineProperty : arg1 == "prototype" || arg1 == "constructor"
+//@ func (*runtime).newBoundFunction
+//@   props C14 C07
+//@   nosafety
+//@   at_call (*runtime).newBoundFunctionObject : arg0 == rt && arg1 == target && arg2 == this
+//@   at_call (*object).defineProperty : arg1 == "prototype" ==> arg3 == 0o100 && !arg4
+//@   at_call (*object).defineProperty : arg1 == "constructor" ==> arg3 == 0o100 && !arg4
+//@ func (*runtime).newError
+//@   props C19 C14
+//@   nosafety
+//@   requires rt != nil && jsValue(message) && stackFramesToPop >= 0
+//@   at_call (*runtime).newEvalError : name == "EvalError" && arg1 == message
+//@   at_call (*runtime).newTypeError : name == "TypeError" && arg1 == message
+//@   at_call (*runtime).newRangeError : name == "RangeError" && arg1 == message
+//@   at_call (*runtime).newReferenceError : name == "ReferenceError" && arg1 == message
+//@   at_call (*runtime).newSyntaxError : name == "SyntaxError" && arg1 == message
+//@   at_call (*runtime).newURIError : name == "URIError" && arg1 == message
+//@   at_call (*runtime).newErrorObject : arg1 == name && arg2 == message && arg3 == stackFramesToPop && name != "EvalError" && name != "TypeError" && name != "RangeError" && name != "ReferenceError" && name != "SyntaxError" && name != "URIError"
+//@   at_call (*object).defineProperty : arg1 == "name" && name != "" && arg2.kind == valueString && is(arg2.value, string) && arg2.value.(string) == name && arg3 == 0o111
